@@ -1,5 +1,7 @@
 import BM.Sanitize
 import BM.Spec.Oracles
+import BM.Proofs.PassInv
+import BM.Proofs.Prov
 /-
   C03: URL attributes carry only allowed schemes (or allowed relative URLs).
 
@@ -91,6 +93,87 @@ theorem url_positions :
     (∀ el ∈ [b!"blockquote", b!"del", b!"ins", b!"q"], isCiteElement el = true ∧ linkable el = true) ∧
     (∀ el ∈ [b!"audio", b!"embed", b!"iframe", b!"img", b!"input", b!"script", b!"source", b!"track", b!"video"],
         isSrcElement el = true ∧ linkable el = true) := by decide
+
+/-! ### the whole of `sanitizeAttrs`, and the bytes -/
+
+/-- the seventeen positions, decomposed the way the URL pass tests them -/
+theorem urlPosition_cases (el k : Bytes) (h : Spec.isUrlPosition el k = true) :
+    linkable el = true ∧
+    ((k = b!"href" ∧ isHrefElement el = true) ∨
+     (k = b!"cite" ∧ isCiteElement el = true ∧ isHrefElement el = false) ∨
+     (k = b!"src" ∧ isSrcElement el = true ∧ isHrefElement el = false ∧ isCiteElement el = false)) := by
+  unfold Spec.isUrlPosition at h
+  simp only [Bool.or_eq_true, Bool.and_eq_true, beq_iff_eq] at h
+  rcases h with (⟨hk, hel⟩ | ⟨hk, hel⟩) | ⟨hk, hel⟩
+  · rcases hel with ((h | h) | h) | h <;> subst h <;> exact ⟨by decide, .inl ⟨hk, by decide⟩⟩
+  · rcases hel with ((h | h) | h) | h <;> subst h <;> exact ⟨by decide, .inr (.inl ⟨hk, by decide, by decide⟩)⟩
+  · rcases hel with (((((((h | h) | h) | h) | h) | h) | h) | h) | h <;> subst h <;>
+      exact ⟨by decide, .inr (.inr ⟨hk, by decide, by decide, by decide⟩)⟩
+
+/-- what C03 says of one attribute of element `el`: at a URL-checked position its value is one
+    that `validURL` returned (a src under a rewriter is the rewriter's business) -/
+def UrlChecked (p : Policy) (el : Bytes) (b : Attr) : Prop :=
+  Spec.isUrlPosition el b.key = true → (b.key = b!"src" → p.srcRewriter = none) →
+    ∃ raw, p.validURL raw = some b.val
+
+theorem urlChecked_passInv (p : Policy) (el : Bytes) : PassInv (UrlChecked p el) where
+  added := by
+    intro x hx hpos
+    exfalso
+    obtain ⟨_, hc⟩ := urlPosition_cases el x.key hpos
+    rcases hx with h | h | h | h <;> rcases hc with ⟨hk, _⟩ | ⟨hk, _⟩ | ⟨hk, _⟩ <;> rw [h] at hk <;> exact absurd hk (by decide)
+  stable := by
+    intro a b hk hv ha hpos hsrc
+    rw [hk] at hpos hsrc
+    obtain ⟨raw, hr⟩ := ha hpos hsrc
+    exact ⟨raw, by rw [hv]; exact hr⟩
+
+/-- **C03 for the whole of `sanitizeAttrs`** (every policy with URL checking on, every element and
+    attribute list): every href / cite / src at one of the seventeen positions that is returned
+    carries a value `validURL` returned — hence (`validURL_sound`) the printed form of a parsed
+    URL whose scheme the policy accepts, or an allowed non-empty relative reference. -/
+theorem C03_sanitizeAttrs (p : Policy) (hreq : p.requireParseableURLs = true) (el : Bytes) (attrs : List Attr)
+    (aps : AttrRules) (out : List Attr) (h : p.sanitizeAttrs el attrs aps = some out) :
+    ∀ b ∈ out, UrlChecked p el b := by
+  refine sanitizeAttrs_after_urlPass (urlChecked_passInv p el) p el attrs aps out h ?_
+  intro mid _
+  constructor
+  · intro hnot b _ hpos
+    exfalso
+    exact hnot ⟨(urlPosition_cases el b.key hpos).1, hreq⟩
+  · intro _ _ m2 hm2 b hb hpos hsrc
+    obtain ⟨a, _, hab⟩ := mapMOpt_mem _ mid m2 hm2 b hb
+    have hk := urlPassAttr_key p el a b hab
+    obtain ⟨_, hc⟩ := urlPosition_cases el b.key hpos
+    rcases hc with ⟨hkey, hel⟩ | ⟨hkey, hel, hnh⟩ | ⟨hkey, hel, hnh, hnc⟩
+    · rw [urlPass_href p el a hel (by rw [← hk]; exact hkey)] at hab
+      simp only [Option.some.injEq, Option.map_eq_some_iff] at hab
+      obtain ⟨u, hu, rfl⟩ := hab
+      exact ⟨a.val, hu⟩
+    · rw [urlPass_cite p el a hel (by rw [← hk]; exact hkey)] at hab
+      simp only [Option.some.injEq, Option.map_eq_some_iff] at hab
+      obtain ⟨u, hu, rfl⟩ := hab
+      exact ⟨a.val, hu⟩
+    · have hka : a.key = b!"src" := by rw [← hk]; exact hkey
+      have hnone := hsrc hkey
+      unfold Policy.urlPassAttr at hab
+      simp only [hnh, hnc, hel, hka, beq_self_eq_true, Bool.false_eq_true, ↓reduceIte, hnone] at hab
+      split at hab
+      · simp at hab
+      · rename_i u hu
+        simp at hab; subst hab
+        exact ⟨a.val, hu⟩
+
+/-- **C03 (byte level, plain policies with URL checking)**: every href / cite / src at a checked
+    position on a tag re-read from the returned bytes carries a value `validURL` returned. -/
+theorem C03_bytes (p : Policy) (hp : Plain p.ensureInit) (hreq : p.ensureInit.requireParseableURLs = true)
+    (input : Bytes) :
+    ∀ k ∈ tokenize (p.sanitizeCore input), (k.tt = .start ∨ k.tt = .selfClosing) →
+      ∀ b ∈ k.attrs, UrlChecked p.ensureInit k.data b := by
+  intro k hk htt b hb
+  have hne : k.attrs ≠ [] := by intro h; rw [h] at hb; simp at hb
+  obtain ⟨t, _, aps, _, _, hs⟩ := reread_open_tag p hp input k hk htt hne
+  exact C03_sanitizeAttrs p.ensureInit hreq k.data t.attrs aps k.attrs hs b hb
 
 example :
     let p : Policy := { initialized := true, requireParseableURLs := true, allowURLSchemes := [(b!"https", [])] }
